@@ -1,7 +1,7 @@
 import corpus
 
-PLAN_QUICK = [('ctx', ['v1', 'lazy1']), ('core', ['v1', 'lazy1']), ('conv', ['v1', 'lazy1'])]
-PLAN_THOROUGH = [('ctx', ['v1', 'lazy1', 'eol0', 'eol1', 'eol2', 'eol4']), ('core', ['v1', 'lazy1', 'eol0', 'eol1', 'eol2', 'eol4']), ('conv', ['v1', 'lazy1', 'eol1', 'eol4']), ('exc', ['v1', 'lazy1'])]
+PLAN_QUICK = [("atoms", ["v1", "lazy1", "eol0", "eol1", "eol2", "eol4", "lazyeol4", "lazyeol2"]), ('ctx', ['v1', 'lazy1']), ('core', ['v1', 'lazy1']), ('conv', ['v1', 'lazy1'])]
+PLAN_THOROUGH = [("atoms", ["v1", "lazy1", "eol0", "eol1", "eol2", "eol4", "lazyeol4", "lazyeol2"]), ('ctx', ['v1', 'lazy1', 'eol0', 'eol1', 'eol2', 'eol4']), ('core', ['v1', 'lazy1', 'eol0', 'eol1', 'eol2', 'eol4']), ('conv', ['v1', 'lazy1', 'eol1', 'eol4']), ('exc', ['v1', 'lazy1'])]
 
 
 def units(tier, seed):
